@@ -511,7 +511,7 @@ def fmt_counts(format_, name, desc, ab, symbols, cols, crlf):
     return nl.join(out) + nl
 
 
-def check_load(a, info):
+def render_file(a):
     format_, protein, records = a["format"], a["protein"], a["records"]
     ab = letters(protein)
     text = ""
@@ -524,7 +524,49 @@ def check_load(a, info):
             text += nl
         else:
             text += fmt_counts(format_, r["name"], r["desc"], ab, r["symbols"], r["cols"], a["crlf"])
-    data = text.encode("utf-8")
+    return text.encode("utf-8")
+
+
+def check_load_malformed(a, info):
+    """Malformed files through lightmotif.load: a motif list or an ordinary exception, never a panic."""
+    data = bytearray(render_file(a["file"]))
+    for kind, x, y in a["mutations"]:
+        n = len(data)
+        if kind == "truncate":
+            del data[(x % (n + 1)):]
+        elif kind == "substitute" and n:
+            data[x % n] = y
+        elif kind == "delete" and n:
+            del data[x % n]
+        elif kind == "insert":
+            data.insert(x % (n + 1), y)
+        elif kind in ("delete-line", "duplicate-line") and n:
+            lines = bytes(data).splitlines(keepends=True)
+            i = x % len(lines)
+            if kind == "delete-line":
+                del lines[i]
+            else:
+                lines.insert(i, lines[i])
+            data = bytearray(b"".join(lines))
+    format_ = a["reader_format"] or a["file"]["format"]
+    protein = a["file"]["protein"] and format_ != "jaspar"
+    info.cls("reader:" + format_)
+    for k, _, _ in a["mutations"]:
+        info.cls("mut:" + k)
+    try:
+        motifs = list(lightmotif.load(io.BytesIO(bytes(data)), format=format_, protein=protein))
+        if len(motifs) > len(data) + 2:
+            raise Violation("load-malformed:too-many-records", "%d motifs from %d bytes" % (len(motifs), len(data)))
+    except ORDINARY:
+        info.cls("raised-ordinary-exception")
+        info.nontrivial = True
+    info.cls("foreign-format", a["reader_format"] not in (None, a["file"]["format"]))
+
+
+def check_load(a, info):
+    format_, protein, records = a["format"], a["protein"], a["records"]
+    ab = letters(protein)
+    data = render_file(a)
     results = []
     path = None
     try:
@@ -605,6 +647,17 @@ def load_args(draw):
     return {"format": format_, "protein": protein, "records": records, "crlf": draw(st.booleans()), "via": draw(st.sampled_from(["path", "bytesio"]))}
 
 
+@st.composite
+def load_malformed_args(draw):
+    mut = st.tuples(st.sampled_from(["truncate", "substitute", "substitute", "delete", "insert", "delete-line", "duplicate-line"]), st.integers(0, 10 ** 6),
+                    st.one_of(st.integers(0, 255), st.sampled_from([10, 13, 62, 91, 93, 9, 32, 47, 58, 0, 255, 195])))
+    return {
+        "file": draw(load_args()),
+        "mutations": draw(st.lists(mut, min_size=1, max_size=3)),
+        "reader_format": draw(st.one_of(st.none(), st.none(), st.none(), st.sampled_from(["jaspar", "jaspar16", "transfac", "uniprobe"]))),
+    }
+
+
 # ----------------------------------------------------------------------------- registry
 
 
@@ -634,6 +687,8 @@ SUBS = [
         revcomp_args(), check_revcomp, 200, 4000),
     Sub("load", "1..5 records written in JASPAR / JASPAR 2016 / TRANSFAC / UniPROBE syntax (DNA and protein, symbol subsets, CRLF) loaded from a path or a BytesIO; names, metadata, counts and pwm / pssm rows equal the written data pushed through the definitions; non-trivial = >= 2 records",
         load_args(), check_load, 200, 4000),
+    Sub("load-malformed", "a valid generated motif file with 1..3 byte / line mutations (truncation, substitution, deletion, insertion, line removal / duplication, invalid UTF-8 bytes), read by lightmotif.load through a BytesIO with its own or (1 in 4) a foreign format: the call must return motifs or raise ValueError / OSError / another ordinary exception, never PanicException (C15 seen from Python); non-trivial = an exception was raised",
+        load_malformed_args(), check_load_malformed, 300, 6000),
 ]
 
 ASSUMPTIONS = [
